@@ -21,7 +21,7 @@ RULE = ('1-6 ledger processes on one shared ledger, private ledgers, shared or p
         'class with a subset of processes run as ParallelProcess); 1-7 run_for/update calls, most sequences '
         'end with update(); non-trivial = >=2 processes, >=5 applied tokens and at least one deferral, '
         'coincident interval end, forced truncation or false condition poll; distinct = distinct spec')
-PLAN = {'quick': {'n': 8000, 'min_cases': 1500}, 'thorough': {'n': 250000, 'min_cases': 30000}}
+PLAN = {'quick': {'n': 24000, 'min_cases': 1500}, 'thorough': {'n': 250000, 'min_cases': 30000}}
 REQUIRED_ORACLES = ['exactly_once', 'apply_time_exact', 'apply_order', 'rows_are_due_tokens', 'accumulator',
                     'weak_bracket', 'no_token_from_false_poll', 'final_ledger', 'not_lost']
 ANCHORS = ['vivarium.core.engine:Engine.run_for', 'vivarium.core.engine:Engine._send_updates',
